@@ -216,6 +216,85 @@ def real_run_flatten_case():
         shutil.rmtree(base, ignore_errors=True)
 
 
+def inject_case():
+    """remapping as the translator uses it for an input bound to a port target: the File/Directory values of the input (secondary files,
+    listings, records, arrays; a URL left alone) are remapped from the directory of the inputs file to the directory in which the
+    injector job of that port runs — whatever work directory the DEPLOYMENT declares — and remapping back restores the original"""
+    import asyncio
+    import shutil
+    import tempfile
+    from pathlib import Path
+
+    import cwl_utils.parser.utils
+
+    from streamflow.config.config import WorkflowConfig
+    from streamflow.core.utils import random_name
+    from streamflow.cwl.translator import CWLTranslator, _inject_value
+    from streamflow.cwl.workflow import CWLWorkflow
+    from streamflow.main import build_context
+
+    def strip(v):
+        if isinstance(v, list):
+            return [strip(x) for x in v]
+        if isinstance(v, dict):
+            if v.get("class") in ("File", "Directory"):
+                out = {"class": v["class"]}
+                for k in ("location", "path"):
+                    if k in v:
+                        out[k] = urllib.parse.unquote(v[k]) if isinstance(v[k], str) else v[k]
+                for k in ("secondaryFiles", "listing"):
+                    if k in v:
+                        out[k] = strip(v[k])
+                return out
+            return {k: strip(x) for k, x in v.items()}
+        return v
+
+    async def run():
+        base = os.path.realpath(tempfile.mkdtemp(prefix="c32inj."))
+        context = build_context({"database": {"type": "default", "config": {"connection": ":memory:"}}, "path": base})
+        try:
+            for dirname, dep_workdir in (("none", None), ("same", "SAME"), ("other", os.path.join(base, "scratch"))):
+                inputs_dir, workdir = os.path.join(base, "in-" + dirname), os.path.join(base, "refs-" + dirname)
+                os.makedirs(os.path.join(inputs_dir, "sub"))
+                os.makedirs(workdir)
+                dep_workdir = workdir if dep_workdir == "SAME" else dep_workdir
+                inputs_path = os.path.join(inputs_dir, "inputs.yml")
+                Path(inputs_path).write_text("{}")
+                value = {"rec": {"n": 3, "url": {"class": "File", "location": "https://example.com/x.bin"},
+                                 "files": [{"class": "File", "location": "sub/a b.txt", "secondaryFiles": [{"class": "File", "location": "sub/a b.txt.idx"}]},
+                                           {"class": "Directory", "location": "sub", "listing": [{"class": "File", "location": "sub/c.txt"}]}]}}
+                cwl_inputs = cwl_utils.parser.utils.load_inputfile_by_yaml(version="v1.2", yaml={"model": value}, uri=Path(inputs_path).as_uri())
+                original = strip(_inject_value(copy.deepcopy(cwl_inputs["model"])))
+                cfg = {"version": "v1.0",
+                       "workflows": {"test": {"type": "cwl", "config": {"file": "main.cwl", "settings": "inputs.yml"},
+                                              "bindings": [{"port": "/model", "target": {"deployment": "loc", "workdir": workdir}}]}},
+                       "deployments": {"loc": {"type": "local", "config": {}} | ({"workdir": dep_workdir} if dep_workdir else {})}}
+                translator = CWLTranslator(context=context, name=random_name(), output_directory=base, cwl_definition=None, cwl_inputs=cwl_inputs,
+                                           cwl_inputs_path=inputs_path, workflow_config=WorkflowConfig("test", cfg))
+                wf = CWLWorkflow(context=context, config={}, name=translator.name, cwl_version="v1.2")
+                translator._inject_input(workflow=wf, port_name="model", global_name="/model", port=wf.create_port(),
+                                         output_directory=os.path.dirname(translator.cwl_inputs_path), value=translator.cwl_inputs["model"])
+                remapped = wf.steps["/model-injector"].get_input_port("model").token_list[0].value
+                job_dir = wf.steps[posixpath.join("/", "model-injector", "__schedule__")].input_directory
+                for s_ in names_in(remapped):
+                    pth = urllib.parse.unquote(s_[7:]) if s_.startswith("file://") else s_
+                    if ":/" in s_ and not s_.startswith("file://"):
+                        continue
+                    if not pth.startswith(job_dir + os.sep):
+                        return {"failure": "an input bound to a port target is not remapped into the directory in which its injector job runs", "deployment_workdir": dep_workdir,
+                                "job_directory": job_dir, "value_points_to": pth}
+                back = strip(remap_token_value(os.path, job_dir, inputs_dir, copy.deepcopy(remapped)))
+                if back != original:
+                    return {"failure": "remapping an injected input back to the directory of the inputs file does not restore it", "deployment_workdir": dep_workdir,
+                            "got": str(back)[:400], "original": str(original)[:400]}
+            return None
+        finally:
+            await context.close()
+            shutil.rmtree(base, ignore_errors=True)
+
+    return asyncio.run(asyncio.wait_for(run(), 120))
+
+
 def check_axioms(n):
     """A-OSPATH / A-URLLIB / A-STR of contracts/C32.py on concrete normalised paths"""
     bad = []
@@ -276,7 +355,7 @@ def crosscheck(n):
     if ax:
         print(json.dumps({"inputs": k, "axiom_disagreements": len(ax), "samples": ax[:3]}, default=str))
         sys.exit(3)
-    bad = search(k) or check_get_path() or real_run_case(2 if int(n) <= 100 else 4) or real_run_flatten_case()
+    bad = search(k) or check_get_path() or inject_case() or real_run_case(2 if int(n) <= 100 else 4) or real_run_flatten_case()
     print(json.dumps({"inputs": k, "native_contract_failures": 1 if bad else 0, "samples": [bad] if bad else [], "known_findings": sorted(KNOWN)}, default=str))
     sys.exit(1 if bad else 0)
 
